@@ -152,4 +152,12 @@ PROPS = {
         "floors": ["c13:edit:" + e for e in ["object-field", "oneof-option", "enum-option", "request-field", "response-field", "topic-field", "entity-data", "entity-status", "event-field", "top-level-declaration", "new-file"]],
         "assumptions": COMMON_ASSUMPTIONS,
     },
+    "C05": {
+        "shards": 16,
+        "level_text": "Every file compiled from the isolation matrix (all annotations one at a time), from option-value and name-scoping stress bundles, from random decorated bundles (descriptions with quotes, backslashes, unicode, paragraphs) and every hand-written .proto under the repository's proto/ tree is printed with protoprint.PrintFile, all printed files of a bundle are parsed and linked together through protosrc/protocompile, and the result is compared element by element with the original descriptor after the projection the statement lists (synthetic oneofs dropped, default JSON names filled in, empty options == absent, options compared by content, leading comments by element path); the re-parsed file is printed again and must reproduce the text byte for byte.",
+        "level_note": "The projection (canonFile) and the element-wise differ are harness code; protocompile is trusted as the parser of record.",
+        "rule": "one evaluation per printed file; non-trivial = printed text longer than 60 bytes; distinct by hash of the printed text.",
+        "floors": ["c05:isolation", "c05:option-values", "c05:scoping", "c05:random", "c05:repo-proto", "c05:comments"],
+        "assumptions": COMMON_ASSUMPTIONS,
+    },
 }
